@@ -138,7 +138,7 @@ def exc_site(e: BaseException):
 def execute(w: World, ex, steps, opts: dict):
     """Run the behaviour from the empty repository.  -> dict(events=[...], stop=None | dict(kind, at, ...)).
     Every event holds the observed triple after the step and what status said; the run stops at the
-    first exception (of the action or of status)."""
+    first exception of an action; a status call that raises leaves an event without a report."""
     w.reset_empty()
     is_dul = isinstance(ex, DulExec)
     head, wd = {}, {}
@@ -166,19 +166,17 @@ def execute(w: World, ex, steps, opts: dict):
             wd = w.observe_wd()
         idx, notes = observe_index(w)
         ev.update(h=dict(head), i=idx, w=dict(wd), notes=notes)
+        ev["status_exc"] = None
         try:
             ev["rep"] = ex.status()
         except Exception as e:          # noqa: BLE001
-            stop = {"kind": "status", "at": k, "act": s["act"], "exc": type(e).__name__, "msg": str(e)[:300],
-                    "site": exc_site(e) if is_dul else "git", "tb": traceback.format_exc()[-1500:], "h": dict(head), "i": idx, "w": dict(wd)}
-            break
-        if opts.get("normal", True):
+            ev["rep"] = None
+            ev["status_exc"] = {"exc": type(e).__name__, "msg": str(e)[:300], "site": exc_site(e) if is_dul else "git", "tb": traceback.format_exc()[-1500:], "mode": "all"}
+        if opts.get("normal", True) and ev["rep"] is not None:
             try:
                 ev["norm"] = ex.status_normal()
             except Exception as e:      # noqa: BLE001
-                stop = {"kind": "status", "at": k, "act": s["act"], "exc": type(e).__name__, "msg": str(e)[:300],
-                        "site": exc_site(e) if is_dul else "git", "tb": traceback.format_exc()[-1500:], "h": dict(head), "i": idx, "w": dict(wd), "mode": "normal"}
-                break
+                ev["status_exc"] = {"exc": type(e).__name__, "msg": str(e)[:300], "site": exc_site(e) if is_dul else "git", "tb": traceback.format_exc()[-1500:], "mode": "normal"}
         if s["act"] in TREEID_ACTS:
             try:
                 ev["tree_id"] = ex.write_tree()
@@ -210,8 +208,9 @@ def to_trace(tid: int, run: dict):
     for ev in run["events"]:
         for m in (ev["h"], ev["i"], ev["w"], ev["tree"] or {}):
             paths.update(m)
+        rep = ev["rep"] or empty_report()
         for f in FIELDS:
-            paths.update(ev["rep"][f])
+            paths.update(rep[f])
         if ev.get("git"):
             for f in FIELDS:
                 paths.update(ev["git"][f])
@@ -225,7 +224,7 @@ def to_trace(tid: int, run: dict):
         e = {"act": ev["act"], "p": list(ev["p"]), "q": list(ev["q"]), "k": k, "c": c,
              "t": _ents(ev["tree"]) if ev["tree"] is not None else [],
              "h": _ents(ev["h"]), "i": _ents(ev["i"]), "w": _ents(ev["w"]),
-             "rep": {f: _plist(ev["rep"][f]) for f in FIELDS},
+             "hasrep": ev["rep"] is not None, "rep": {f: _plist(rep[f]) for f in FIELDS},
              "hasnorm": ev.get("norm") is not None,
              "norm": [{"p": list(p), "dir": bool(d)} for (p, d) in sorted(ev.get("norm") or ())],
              "hasgit": ev.get("git") is not None,
@@ -252,8 +251,9 @@ def cell_pattern(cells):
 def path_flags(p, i: dict, w: dict):
     """what the file system holds where the path should be (decides which code path status takes)"""
     fl = []
-    if any(len(q) > len(p) and q[:len(p)] == p for q in w):
-        fl.append("wd-dir")
+    below = sorted({w[q][0] for q in w if len(q) > len(p) and q[:len(p)] == p})
+    if below:
+        fl.append("wd-dir(" + "".join(below) + ")")
     if any(len(q) < len(p) and p[:len(q)] == q for q in w):
         fl.append("below-wd-file")
     if any(len(q) > len(p) and q[:len(p)] == p for q in i):
